@@ -81,42 +81,25 @@ Proof.
     destruct (reader_run m s2 es2) as [s3 o3]. now rewrite app_assoc.
 Qed.
 
-(* data lines of one file, header (if any) already known *)
-Definition row_ok (m : rmode) (h : option (list bytes)) (l : line) : option record :=
-  match m with
-  | MPairs => Some (of_pairs l [])
-  | MImplicit => Some (positional 1 l)
-  | MHeader => match h with Some hh => zip_header hh l | None => None end
-  end.
-
-Lemma rows_run m h name fn before : forall ls rs i,
-  Forall2 (fun l r => row_ok m h l = Some r) ls rs ->
-  (m = MHeader -> h <> None) ->
-  reader_run m (RS (Ctx name fn (before + i - 1) (i - 1)) h false) (map Line ls) =
-  (RS (Ctx name fn (before + i - 1 + Z.of_nat (List.length rs)) (i - 1 + Z.of_nat (List.length rs))) h false,
+(* the lines of one file, from any header state *)
+Lemma lines_run o name fn before : forall ls h rs i,
+  parse_lines o h ls = Some rs ->
+  exists h1,
+  reader_run o (RS (Ctx name fn (before + i - 1) (i - 1)) h false) (map Line ls) =
+  (RS (Ctx name fn (before + i - 1 + Z.of_nat (List.length rs)) (i - 1 + Z.of_nat (List.length rs))) h1 false,
    number_from name fn before i rs).
 Proof.
-  induction ls as [|l t IH]; intros rs i HF Hh; inversion HF as [|? r ? rs' Hr HF']; subst.
-  - cbn. ctx_eq.
-  - cbn [map reader_run].
-    assert (Hs : reader_step m (RS (Ctx name fn (before + i - 1) (i - 1)) h false) (Line l) =
-                 (RS (Ctx name fn (before + (i + 1) - 1) ((i + 1) - 1)) h false, [(r, Ctx name fn (before + i) i)])).
-    { unfold reader_step, row_ok in *. cbn [rfailed rctx rheader]. destruct m.
-      - injection Hr as <-. unfold input_record. cbn. ctx_eq.
-      - destruct h as [hh|]; [|exfalso; now apply Hh]. rewrite Hr. unfold input_record. cbn. ctx_eq.
-      - injection Hr as <-. unfold input_record. cbn. ctx_eq. }
-    rewrite Hs. rewrite (IH rs' (i + 1) HF' Hh). cbn [number_from app List.length].
-    ctx_eq.
-Qed.
-
-Lemma parse_header_rows h : forall rows rs,
-  parse_rows h rows = Some rs -> Forall2 (fun l r => zip_header h l = Some r) rows rs.
-Proof.
-  induction rows as [|l t IH]; intros rs H; cbn in H.
-  - injection H as <-. constructor.
-  - destruct (zip_header h l) as [r|] eqn:E; [|discriminate].
-    destruct (parse_rows h t) as [rs'|]; [|discriminate].
-    injection H as <-. constructor; [exact E|]. now apply IH.
+  induction ls as [|l t IH]; intros h rs i Hp; cbn [parse_lines] in Hp.
+  - injection Hp as <-. exists h. cbn. ctx_eq.
+  - cbn [map reader_run reader_step rfailed rheader rctx].
+    destruct (line_step o h l) as [|h'|h' r] eqn:E; [discriminate| |].
+    + destruct (IH h' rs i Hp) as [h1 H1]. exists h1. rewrite H1. reflexivity.
+    + destruct (parse_lines o h' t) as [rs'|] eqn:Ep; [|discriminate]. injection Hp as <-.
+      destruct (IH h' rs' (i + 1) Ep) as [h1 H1]. exists h1.
+      unfold input_record. cbn [filename filenum nr fnr].
+      replace (before + i - 1 + 1) with (before + (i + 1) - 1) by lia.
+      replace (i - 1 + 1) with (i + 1 - 1) by lia.
+      rewrite H1. cbn [number_from app List.length]. ctx_eq.
 Qed.
 
 (* one whole file, from any non-failed state *)
@@ -128,24 +111,9 @@ Lemma file_run m name ls rs c0 h0 :
    number_from name (filenum c0 + 1) (nr c0) 1 rs).
 Proof.
   intros Hp. cbn [reader_run reader_step rfailed rctx]. unfold start_file.
-  destruct m; cbn [parse_file] in Hp.
-  - injection Hp as <-. exists None.
-    pose proof (rows_run MPairs None name (filenum c0 + 1) (nr c0) ls (map (fun l => of_pairs l []) ls) 1) as H.
-    replace (nr c0 + 1 - 1) with (nr c0) in H by lia. replace (1 - 1) with 0 in H by lia.
-    rewrite H; [cbn [app]; rewrite map_length; ctx_eq| |discriminate].
-    clear. induction ls; constructor; auto.
-  - destruct ls as [|hl rows].
-    + injection Hp as <-. exists None. cbn. ctx_eq.
-    + exists (Some (map snd hl)). cbn [map reader_run reader_step rfailed rheader rctx].
-      apply parse_header_rows in Hp.
-      pose proof (rows_run MHeader (Some (map snd hl)) name (filenum c0 + 1) (nr c0) rows rs 1) as H.
-      replace (nr c0 + 1 - 1) with (nr c0) in H by lia. replace (1 - 1) with 0 in H by lia.
-      rewrite H; [cbn [app]; ctx_eq| |discriminate]. exact Hp.
-  - injection Hp as <-. exists None.
-    pose proof (rows_run MImplicit None name (filenum c0 + 1) (nr c0) ls (map (positional 1) ls) 1) as H.
-    replace (nr c0 + 1 - 1) with (nr c0) in H by lia. replace (1 - 1) with 0 in H by lia.
-    rewrite H; [cbn [app]; rewrite map_length; ctx_eq| |discriminate].
-    clear. induction ls; constructor; auto.
+  destruct (lines_run m name (filenum c0 + 1) (nr c0) ls None rs 1 Hp) as [h1 H].
+  replace (nr c0 + 1 - 1) with (nr c0) in H by lia. replace (1 - 1) with 0 in H by lia.
+  exists h1. rewrite H. cbn [app]. ctx_eq.
 Qed.
 
 Lemma files_run m : forall fs recs c0 h0,
@@ -255,3 +223,84 @@ Qed.
 Lemma number_from_fnr name fn before : forall rs i,
   map (fun rc => fnr (snd rc)) (number_from name fn before i rs) = zseq i (List.length rs).
 Proof. induction rs as [|r t IH]; intros i; cbn; [reflexivity|]. now rewrite IH. Qed.
+
+(* ---------- verbs that can see contexts; obliviousness ---------- *)
+Lemma cfeed_app v : forall xs ys s,
+  cfeed v s (xs ++ ys) = let '(s1, o1) := cfeed v s xs in let '(s2, o2) := cfeed v s1 ys in (s2, o1 ++ o2).
+Proof.
+  induction xs as [|x t IH]; intros ys s; cbn [cfeed app].
+  - destruct (cfeed v s ys); reflexivity.
+  - destruct (cstep v s x) as [s1 o1]. rewrite IH. destruct (cfeed v s1 t) as [s2 o2].
+    destruct (cfeed v s2 ys) as [s3 o3]. now rewrite app_assoc.
+Qed.
+
+Lemma cchain_feed a b : forall xs sa sb,
+  cfeed (cchain a b) (sa, sb) xs =
+  let '(sa1, ys) := cfeed a sa xs in let '(sb1, zs) := cfeed b sb ys in ((sa1, sb1), zs).
+Proof.
+  induction xs as [|x t IH]; intros sa sb; cbn [cfeed]; [reflexivity|].
+  cbn [cchain cstep fst snd]. destruct (cstep a sa x) as [sa1 y1].
+  destruct (cfeed b sb y1) as [sb1 z1] eqn:E1. rewrite IH.
+  destruct (cfeed a sa1 t) as [sa2 y2]. rewrite cfeed_app, E1.
+  destruct (cfeed b sb1 y2) as [sb2 z2]. reflexivity.
+Qed.
+
+Lemma cchain_is_composition a b xs c : crun (cchain a b) xs c = crun b (crun a xs c) c.
+Proof.
+  unfold crun. cbn [cinit cchain]. rewrite cchain_feed.
+  destruct (cfeed a (cinit a) xs) as [sa ys]. rewrite cfeed_app.
+  destruct (cfeed b (cinit b) ys) as [sb zs]. cbn [cfinish cchain fst snd].
+  destruct (cfeed b sb (cfinish a sa c)) as [sb2 ws]. now rewrite app_assoc.
+Qed.
+
+Lemma lift_feed v : forall xs s,
+  fst (cfeed (lift v) s xs) = fst (feed v s (map fst xs))
+  /\ map fst (snd (cfeed (lift v) s xs)) = snd (feed v s (map fst xs)).
+Proof.
+  induction xs as [|x t IH]; intros s; cbn [cfeed feed map]; [split; reflexivity|].
+  cbn [lift cstep]. destruct (vstep v s (fst x)) as [s1 o1].
+  destruct (IH s1) as [H1 H2].
+  change (cstate (lift v)) with (vstate v) in *.
+  destruct (cfeed (lift v) s1 t) as [s2 o2]. destruct (feed v s1 (map fst t)) as [s2' o2']. cbn [fst snd] in *. subst.
+  split; [reflexivity|]. rewrite map_app, map_map. cbn [fst]. now rewrite map_id.
+Qed.
+
+Lemma lift_run v xs c : map fst (crun (lift v) xs c) = run v (map fst xs).
+Proof.
+  unfold crun, run. destruct (lift_feed v xs (vinit v)) as [H1 H2].
+  change (cinit (lift v)) with (vinit v).
+  change (cstate (lift v)) with (vstate v) in *.
+  destruct (cfeed (lift v) (vinit v) xs) as [s o]. destruct (feed v (vinit v) (map fst xs)) as [s' o']. cbn [fst snd] in *. subst.
+  rewrite map_app. f_equal. cbn [lift cfinish]. rewrite map_map. cbn [fst]. now rewrite map_id.
+Qed.
+
+Lemma lift_oblivious v : oblivious (lift v).
+Proof. intros xs ys c c' H. now rewrite !lift_run, H. Qed.
+
+Lemma oblivious_chain a b : oblivious a -> oblivious b -> oblivious (cchain a b).
+Proof.
+  intros Ha Hb xs ys c c' H. rewrite !cchain_is_composition. apply Hb. now apply Ha.
+Qed.
+
+Lemma renumber_fst name rs : map fst (renumber name rs) = rs.
+Proof. apply number_from_fst. Qed.
+
+(* chain = pipe needs only the DOWNSTREAM verb to be oblivious: the pipe's second process renumbers the records *)
+Lemma chain_equals_pipe_oblivious a b xs c name c' :
+  oblivious b ->
+  map fst (crun b (renumber name (map fst (crun a xs c))) c') = map fst (crun (cchain a b) xs c).
+Proof.
+  intros Hb. rewrite cchain_is_composition. apply Hb. apply renumber_fst.
+Qed.
+
+Lemma modelled_verbs_oblivious (vc : vcode) : oblivious (lift (verb_of vc)).
+Proof. apply lift_oblivious. Qed.
+
+Lemma chain_differs_from_pipe_for_nr :
+  exists (xs : list crec) (c : context),
+  map fst (crun cput_nr (renumber (B "(stdin)") (map fst (crun (lift v_tac) xs c))) c)
+  <> map fst (crun (cchain (lift v_tac) cput_nr) xs c).
+Proof.
+  exists (renumber (B "f") [[(B "a", B "1")]; [(B "a", B "2")]]), (Ctx (B "f") 1 2 2).
+  vm_compute. discriminate.
+Qed.
